@@ -93,6 +93,14 @@ CtxOff(ctx) ==
   \cup (IF ctx = "tap" THEN {"allow_multi"} ELSE {})
 SaneOff(ctx) == CtxOff(ctx) \cup {"allow_duplicate_keys", "allow_malleability", "allow_mixed_time_locks", "allow_sigless_branch"}
 
+\* rules a context enforces whatever the parameters say: the multisig flavour, and the consensus
+\* limits on the size of the script (a P2SH redeem script is pushed as one element of at most 520
+\* bytes; any other script is at most 10000 bytes; tapscript has no such limit)
+HardForbidden(ctx) == IF ctx = "tap" THEN {"multi", "sortedmulti"} ELSE {"multi_a", "sortedmulti_a"}
+HasHardForbidden(m, ctx) == \E f \in HardForbidden(ctx) : HasFrag(m, f)
+MaxScriptBytes(ctx) == IF ctx = "legacy" THEN 520 ELSE IF ctx = "tap" THEN 4000000 ELSE 10000
+WithinConsensusSize(m, ctx) == ByteLen(Encode(m, ctx)) <= MaxScriptBytes(ctx)
+
 ObeysContext(m, t, ctx) == \A sw \in CtxOff(ctx) : ~Defect(sw, m, t, ctx)
 ObeysSane(m, t, ctx)    == \A sw \in SaneOff(ctx) : ~Defect(sw, m, t, ctx)
 =============================================================================
